@@ -197,7 +197,7 @@ FAMILIES = {
     "C03": ["canon", "gc", "gc", "npt", "hmc", "canon_noreset", "npt_noreset", "gc", "gcmix"],
     "C04": ["canon", "gc", "npt", "hmc", "gcmix"],
     "C05": ["gc", "gc", "gc", "gcdrain", "gcmix"],
-    "C11": ["canon", "canon", "gc", "npt", "gcdrain", "gcmix", "gcmix"],
+    "C11": ["canon", "gc", "gc", "npt", "gcdrain", "gcmix", "gcmix", "gc"],
     "C12": ["canon", "canon", "hmc", "npt", "gc", "canon_noreset"],
     "C14": ["hmc"],
     "C20": ["canon", "gc", "npt", "hmc"],
